@@ -40,6 +40,9 @@ func (c *Ctx) viewOf(f *ssa.Function) *ssa.Function {
 			if c.P.Looked[callee] {
 				return false // an anchor of some rule: its call must stay visible
 			}
+			if callee.Parent() != nil {
+				return callee.Synthetic == "" // a function literal called through a known closure value
+			}
 			return callee.Pkg != nil && callee.Pkg == caller.Pkg && !token.IsExported(callee.Name()) && callee.Synthetic == ""
 		})
 	}
